@@ -36,6 +36,29 @@ pub struct Mix {
     pub zero_fee_zero_impact: u64,
 }
 
+/// Rewrite every decimal literal >= 256 of a Coq term as a hexadecimal literal (Coq parses hex
+/// literals ~3x faster; none of the constructor names contains a digit).
+pub fn hexify(term: &str) -> String {
+    let mut out = String::with_capacity(term.len());
+    let bytes = term.as_bytes();
+    let mut i = 0;
+    while i < bytes.len() {
+        if bytes[i].is_ascii_digit() {
+            let st = i;
+            while i < bytes.len() && bytes[i].is_ascii_digit() { i += 1; }
+            let tok = &term[st..i];
+            match tok.parse::<u128>() {
+                Ok(v) if v >= 256 => out.push_str(&format!("{v:#x}")),
+                _ => out.push_str(tok),
+            }
+        } else {
+            out.push(bytes[i] as char);
+            i += 1;
+        }
+    }
+    out
+}
+
 pub fn ecode(e: &gmsol_model::Error) -> i64 {
     use gmsol_model::Error::*;
     match e {
@@ -214,6 +237,31 @@ macro_rules! mk_impl {
                     opool(&m.vi_swaps), opool(&m.vi_positions)
                 )
             }
+            /// Every field other than supply / liquidity / swap impact / claimable fee / vi_swaps is equal.
+            pub fn rest_eq(a: &M, b: &M) -> bool {
+                a.value_to_amount_divisor == b.value_to_amount_divisor
+                    && a.funding_amount_per_size_adjustment == b.funding_amount_per_size_adjustment
+                    && a.open_interest == b.open_interest
+                    && a.open_interest_in_tokens == b.open_interest_in_tokens
+                    && a.position_impact == b.position_impact
+                    && a.borrowing_factor == b.borrowing_factor
+                    && a.funding_factor_per_second == b.funding_factor_per_second
+                    && a.funding_amount_per_size == b.funding_amount_per_size
+                    && a.claimable_funding_amount_per_size == b.claimable_funding_amount_per_size
+                    && a.collateral_sum == b.collateral_sum
+                    && a.total_borrowing == b.total_borrowing
+                    && a.now == b.now
+                    && a.clocks == b.clocks
+                    && a.vi_positions == b.vi_positions
+            }
+            /// Post-state of an action: compact when only the five writable fields may differ.
+            pub fn post(before: &M, m: &M) -> String {
+                if rest_eq(before, m) {
+                    format!("(PUpd {} {} {} {} {})", m.total_supply, pool(&m.primary), pool(&m.swap_impact), pool(&m.fee), opool(&m.vi_swaps))
+                } else {
+                    format!("(PFull {})", state(m))
+                }
+            }
             pub fn price(p: &Price<$U>) -> String { format!("(mkPrice {} {})", p.min, p.max) }
             pub fn prices(p: &Prices<$U>) -> String {
                 format!("(mkPrices {} {} {})", price(&p.index_token_price), price(&p.long_token_price), price(&p.short_token_price))
@@ -240,7 +288,7 @@ macro_rules! mk_impl {
             fn gen_prices(rng: &mut Rng, px: &Px) -> Prices<$U> {
                 // small drift around the history's base prices
                 let drift = |rng: &mut Rng, p: $U| -> $U {
-                    match rng.below(4) { 0 => p, 1 => p + p / 100, 2 => p - p / 100, _ => p + (rng.below(7) as $U) }
+                    match rng.below(4) { 0 => p, 1 => p.saturating_add(p / 100), 2 => p - p / 100, _ => p.saturating_add(rng.below(7) as $U) }
                 };
                 let l = drift(rng, px.long).max(1);
                 let s = drift(rng, px.short).max(1);
@@ -251,7 +299,7 @@ macro_rules! mk_impl {
                 };
                 if px.index_same { p.index_token_price = p.long_token_price; }
                 // a few malformed price sets
-                match rng.below(60) {
+                match rng.below(240) {
                     0 => p.long_token_price.min = 0,
                     1 => p.short_token_price.max = 0,
                     2 => p.index_token_price.min = 0,
@@ -271,12 +319,12 @@ macro_rules! mk_impl {
                     1 => rng.below(1000) as $U + 1,
                     2 => r / 1_000_000 + 1,
                     3 => r / 1000 + 1,
-                    4 | 5 => r / 100 + rng.below(1000) as $U,
-                    6 | 7 => r / 10 + rng.below(1000) as $U,
+                    4 | 5 => (r / 100).saturating_add(rng.below(1000) as $U),
+                    6 | 7 => (r / 10).saturating_add(rng.below(1000) as $U),
                     8 => r / 2,
                     9 => r,
                     10 => r.saturating_mul(2),
-                    11 => r / (rng.below(50) as $U + 1) + rng.below(100) as $U,
+                    11 => (r / (rng.below(50) as $U + 1)).saturating_add(rng.below(100) as $U),
                     12 => (rng.uint(W) as $U) >> rng.below(W as u64 / 2),
                     _ => r.saturating_add(rng.below(3) as $U).saturating_sub(1),
                 }
@@ -346,7 +394,7 @@ macro_rules! mk_impl {
                             let usd2 = if rng.chance(1, 2) { 0 } else { amount(rng, usd_cap / 16) };
                             let tok = |rng: &mut Rng, v: $U| -> $U {
                                 let t = v / px.long.max(1);
-                                match rng.below(4) { 0 => t, 1 => t + t / 10, 2 => t - t / 10, _ => t + t / 2 }
+                                match rng.below(4) { 0 => t, 1 => t.saturating_add(t / 10), 2 => t - t / 10, _ => t.saturating_add(t / 2) }
                             };
                             let (o, t) = if side_long { (&mut m.open_interest.0, &mut m.open_interest_in_tokens.0) } else { (&mut m.open_interest.1, &mut m.open_interest_in_tokens.1) };
                             o.long_amount = usd; o.short_amount = usd2;
@@ -399,12 +447,16 @@ macro_rules! mk_impl {
                     short: if rng.chance(3, 4) { PS } else { PS * [2u64, 3, 120][rng.below(3) as usize] as $U },
                     index_same: rng.chance(2, 3),
                 };
-                let tok_scale: $U = (10 as $U).pow(6 + rng.below(5) as u32);
+                // token scale chosen so that pool USD values sit where the impact arithmetic is non-trivial
+                // (u64/9: 1e10..1e13, u128/20: 1e21..1e27 value units) and occasionally far below
+                let vexp: u32 = if W == 64 { 10 + rng.below(4) as u32 } else { 21 + rng.below(7) as u32 };
+                let vexp = if rng.chance(1, 8) { vexp - 4 } else { vexp };
+                let tok_scale: $U = ((10 as $U).pow(vexp) / px.long).max(1);
                 if rng.chance(1, 4) {
                     // pre-populated market
                     m.primary.long_amount = amount(rng, tok_scale);
                     m.primary.short_amount = amount(rng, tok_scale.saturating_mul(px.long / px.short.max(1)).max(1));
-                    let pv = (m.primary.long_amount as u128 * px.long as u128 + m.primary.short_amount as u128 * px.short as u128) / (div as u128);
+                    let pv = (m.primary.long_amount as u128).saturating_mul(px.long as u128).saturating_add((m.primary.short_amount as u128).saturating_mul(px.short as u128)) / (div as u128);
                     m.total_supply = (pv.min(<$U>::MAX as u128 / 4) as $U).max(1);
                     perturb(rng, &mut m, &px);
                 }
@@ -424,19 +476,28 @@ macro_rules! mk_impl {
                         let (l, s) = gen_deposit(rng, &m, &px, tok_scale);
                         ops.push(do_deposit(&mut m, l, s, p, &mut flags).0);
                     } else if k < mix.deposit + mix.withdraw {
-                        let a = match rng.below(8) { 0 => m.total_supply, 1 => 0, 2 => m.total_supply.saturating_add(1), _ => amount(rng, m.total_supply / 4) };
+                        let a = match rng.below(24) { 0 | 1 => m.total_supply, 2 => 0, 3 => m.total_supply.saturating_add(1), _ => amount(rng, m.total_supply / 4).max(1) };
                         ops.push(do_withdraw(&mut m, a, p, &mut flags));
                     } else if k < mix.deposit + mix.withdraw + mix.swap {
-                        let is_long_in = rng.chance(1, 2);
-                        // reference: the in-token equivalent of the out-side pool
-                        let (pin, pout, out_pool, in_pool) = if is_long_in { (px.long, px.short, m.primary.short_amount, m.primary.long_amount) } else { (px.short, px.long, m.primary.long_amount, m.primary.short_amount) };
-                        let eq = ((out_pool as u128 * pout as u128) / (pin.max(1) as u128)).min(<$U>::MAX as u128) as $U;
-                        let reference = if rng.chance(1, 2) { eq } else { in_pool.max(eq / 2) };
-                        let a = if rng.chance(1, 30) { 0 } else { amount(rng, reference / 4) };
+                        // value of each side; swapping in the poorer side improves the balance (positive impact)
+                        let lv = (m.primary.long_amount as u128).saturating_mul(px.long as u128);
+                        let sv = (m.primary.short_amount as u128).saturating_mul(px.short as u128);
+                        let improving_long_in = lv < sv;
+                        let mut is_long_in = if rng.chance(3, 5) { improving_long_in } else { !improving_long_in };
+                        // avoid swapping out of an empty pool most of the time
+                        let out_empty = if is_long_in { sv < (px.long as u128).saturating_mul(2) } else { lv < (px.short as u128).saturating_mul(2) };
+                        if out_empty && rng.chance(9, 10) { is_long_in = !is_long_in; }
+                        let (pin, pout, out_pool) = if is_long_in { (px.long, px.short, m.primary.short_amount) } else { (px.short, px.long, m.primary.long_amount) };
+                        // reference: the in-token equivalent of the out-side pool / of the imbalance
+                        let eq = ((out_pool as u128).saturating_mul(pout as u128) / (pin.max(1) as u128)).min(<$U>::MAX as u128) as $U;
+                        let gap = ((if lv > sv { lv - sv } else { sv - lv }) / (pin.max(1) as u128)).min(<$U>::MAX as u128) as $U;
+                        let reference = match rng.below(4) { 0 => gap, 1 => gap / 2, _ => eq / 2 };
+                        let mut a = if rng.chance(1, 40) { 0 } else { amount(rng, reference).max(1) };
+                        if rng.chance(9, 10) && eq >= 10 { a = a.min(eq / 10 * 9); }
                         ops.push(do_swap(&mut m, is_long_in, a, p, &mut flags));
                     } else if k < mix.deposit + mix.withdraw + mix.swap + mix.set {
                         perturb(rng, &mut m, &px);
-                        ops.push(format!("OSet {}", state(&m)));
+                        ops.push(format!("OSet (PFull {})", state(&m)));
                         flags.insert('S');
                     } else {
                         // round trip at unchanged prices
@@ -458,10 +519,10 @@ macro_rules! mk_impl {
                 let ref_l = if m.primary.long_amount == 0 { tok_scale } else { m.primary.long_amount / 2 };
                 let short_eq = tok_scale.saturating_mul((px.long / px.short.max(1)).max(1));
                 let ref_s = if m.primary.short_amount == 0 { short_eq } else { m.primary.short_amount / 2 };
-                match rng.below(10) {
-                    0 | 1 | 2 => (amount(rng, ref_l), 0),
-                    3 | 4 | 5 => (0, amount(rng, ref_s)),
-                    6 => (0, 0),
+                match rng.below(30) {
+                    0..=8 => (amount(rng, ref_l).max(1), 0),
+                    9..=17 => (0, amount(rng, ref_s).max(1)),
+                    18 => (0, 0),
                     _ => (amount(rng, ref_l), amount(rng, ref_s)),
                 }
             }
@@ -477,10 +538,10 @@ macro_rules! mk_impl {
                         minted = Some(*rep.minted());
                         format!("(Ok (mkDR {} {} {} {}))", rep.minted(), z(rep.price_impact()), fees(rep.long_token_fees()), fees(rep.short_token_fees()))
                     }
-                    Some(Err(e)) => { flags.insert('d'); *m = before; format!("(Err {})", ecode(&e)) }
-                    None => { flags.insert('!'); *m = before; "(Err 99)".to_string() }
+                    Some(Err(e)) => { flags.insert('d'); *m = before.clone(); format!("(Err {})", ecode(&e)) }
+                    None => { flags.insert('!'); *m = before.clone(); "(Err 99)".to_string() }
                 };
-                (format!("ODeposit {} {} {} {} {}", l, s, prices(&p), rs, state(m)), minted)
+                (format!("ODeposit {} {} {} {} {}", l, s, prices(&p), rs, post(&before, m)), minted)
             }
 
             fn do_withdraw(m: &mut M, a: $U, p: Prices<$U>, flags: &mut std::collections::BTreeSet<char>) -> String {
@@ -491,14 +552,15 @@ macro_rules! mk_impl {
                         flags.insert('W');
                         format!("(Ok (mkWR {} {} {} {}))", rep.long_token_output(), rep.short_token_output(), fees(rep.long_token_fees()), fees(rep.short_token_fees()))
                     }
-                    Some(Err(e)) => { flags.insert('w'); *m = before; format!("(Err {})", ecode(&e)) }
-                    None => { flags.insert('!'); *m = before; "(Err 99)".to_string() }
+                    Some(Err(e)) => { flags.insert('w'); *m = before.clone(); format!("(Err {})", ecode(&e)) }
+                    None => { flags.insert('!'); *m = before.clone(); "(Err 99)".to_string() }
                 };
-                format!("OWithdraw {} {} {} {}", a, prices(&p), rs, state(m))
+                format!("OWithdraw {} {} {} {}", a, prices(&p), rs, post(&before, m))
             }
 
             /// Swaps are NOT restored on failure: whatever `execute` leaves behind is printed.
             fn do_swap(m: &mut M, is_long_in: bool, a: $U, p: Prices<$U>, flags: &mut std::collections::BTreeSet<char>) -> String {
+                let before = m.clone();
                 let before_in_impact = if is_long_in { m.swap_impact.long_amount } else { m.swap_impact.short_amount };
                 let r = restore_on_panic(m, |m| m.swap(is_long_in, a, p).and_then(|d| d.execute()));
                 let rs = match r {
@@ -508,10 +570,10 @@ macro_rules! mk_impl {
                         else if *rep.price_impact() < 0 { flags.insert('N'); } else { flags.insert('Z'); }
                         format!("(Ok (mkSR {} {} {} {}))", rep.token_out_amount(), z(rep.price_impact()), rep.price_impact_amount(), fees(rep.token_in_fees()))
                     }
-                    Some(Err(e)) => { flags.insert('F'); format!("(Err {})", ecode(&e)) }
+                    Some(Err(e)) => { if std::env::var("VERIF_SHOW_ERRORS").is_ok() { eprintln!("swap error: {e}"); } flags.insert('F'); format!("(Err {})", ecode(&e)) }
                     None => { flags.insert('!'); "(Err 99)".to_string() }
                 };
-                format!("OSwap {} {} {} {} {}", b(is_long_in), a, prices(&p), rs, state(m))
+                format!("OSwap {} {} {} {} {}", b(is_long_in), a, prices(&p), rs, post(&before, m))
             }
         }
     };
@@ -521,10 +583,10 @@ mk_impl!(m64, u64, i64, 64, 9, 1);
 mk_impl!(m128, u128, i128, 128, 20, 100_000_000_000);
 
 pub fn run(mix: &Mix, seed: u64, n: usize) {
-    crate::silence_panics();
+    if std::env::var("VERIF_SHOW_PANICS").is_err() { crate::silence_panics(); }
     let mut rng = Rng::new(seed);
     for _ in 0..n {
         let (tag, term) = if rng.chance(1, 2) { m64::history(&mut rng, mix) } else { m128::history(&mut rng, mix) };
-        emit(&tag, &term);
+        emit(&tag, &hexify(&term));
     }
 }
